@@ -35,6 +35,8 @@ inductive Val where
   | ints (l : List Int)
   /-- a list of lists of strings (`refs_units`: the dimension units of every referenced array) -/
   | strss (l : List (List Str))
+  /-- a list of tuples of ints (the shapes of the referenced arrays) -/
+  | intss (l : List (List Int))
   /-- an object with `__len__` (a DataArray, a container): truthiness and `len` are its length -/
   | sized (n : Nat)
   /-- an enum member (`DimensionType.Range`): always truthy, equal to itself only -/
@@ -52,6 +54,7 @@ def truthy : Val → Bool
   | .strs l => !l.isEmpty
   | .ints l => !l.isEmpty
   | .strss l => !l.isEmpty
+  | .intss l => !l.isEmpty
   | .sized n => n != 0
   | .enum _ => true
 
@@ -133,6 +136,7 @@ def lenOf : Val → Except Err Nat
   | .strs l => .ok l.length
   | .ints l => .ok l.length
   | .strss l => .ok l.length
+  | .intss l => .ok l.length
   | .sized n => .ok n
   | _ => .error .typeError
 
@@ -142,6 +146,7 @@ def itemsOf : Val → Except Err (List Val)
   | .strs l => .ok (l.map .str)
   | .ints l => .ok (l.map .int)
   | .strss l => .ok (l.map .strs)
+  | .intss l => .ok (l.map .ints)
   | .str s => .ok (s.map fun c => .str [c])
   | _ => .error .typeError
 
